@@ -243,6 +243,31 @@ fn main() {
             let _ = out.flush();
             continue;
         }
+        if entry.starts_with("time_") {
+            // C20 confirmation: wall time of `cap` repetitions of the parse (median of 5 batches), in nanoseconds
+            let e2 = entry[5..].to_string();
+            let data = unhex(if p.len() > 3 { p[3] } else { "" });
+            let reps = cap.max(1);
+            let mut samples = Vec::new();
+            for _ in 0..5 {
+                let t0 = std::time::Instant::now();
+                for _ in 0..reps {
+                    let buf: &[u8] = &data;
+                    let s = match e2.as_str() {
+                        "headers" => run_headers(MAXCAP, buf),
+                        "chunk" => run_chunk(buf),
+                        e if e.starts_with("req") => run_req(e, flags, MAXCAP, buf),
+                        e => run_resp(e, flags, MAXCAP, buf),
+                    };
+                    std::hint::black_box(s);
+                }
+                samples.push(t0.elapsed().as_nanos() as u64);
+            }
+            samples.sort();
+            let _ = writeln!(out, "{{\"impl\":{{\"status\":\"T\",\"n\":0,\"ns\":{}}},\"ref\":{{}}}}", samples[2]);
+            let _ = out.flush();
+            continue;
+        }
         let data = unhex(if p.len() > 3 { p[3] } else { "" });
         // exact-size heap allocation so that an over-read is at least adjacent to foreign memory
         let boxed: Box<[u8]> = data.into_boxed_slice();
